@@ -771,7 +771,8 @@ class StretchyTreeMatcher:
                         break
                     # TODO: make this a smarter comparison, maybe handle dictionaries, f-strings, tuples, etc.
                     if is_primitive(inssub_value):
-                        is_match = inssub_value == stdsub_value
+                        is_match = (type(inssub_value) is type(stdsub_value) and
+                                    inssub_value == stdsub_value)
         if is_match:
             mapping = AstMap()  # return MAPPING
             mapping.add_node_pairing(ins_node, std_node)
